@@ -12,6 +12,7 @@ An archive is described by a list of entries, each a dict
     orphan  : entry WITHOUT the emptyStream flag that is listed beyond the streams the folders
               provide (hostile: a "file" for which the archive carries no data stream)
     attrdir : entry without emptyStream flag whose attribute word has FILE_ATTRIBUTE_DIRECTORY
+  optional "attr": the entry's 32-bit attribute word (see `attr_words`), varied independently of kind / name / data
 and a layout: "solid" (one folder holding every file stream), "perfile" (one folder per file stream)
 or "nofolders" (no MainStreamsInfo at all; every non-empty-stream entry is then an orphan).
 
@@ -59,6 +60,31 @@ def bitvector(bits) -> bytes:
 
 def _prop(pid: int, body: bytes) -> bytes:
     return bytes([pid]) + number(len(body)) + body
+
+
+def attr_words(entries):
+    """the attribute word written for each entry (None = not defined for that entry), or None if the archive carries no
+    attribute property at all.  An entry may name its word itself (`"attr": int`, any 32-bit value: Windows attribute
+    bits, the p7zip unix extension 0x8000 | st_mode << 16, reparse points, …) INDEPENDENTLY of its kind, name and data;
+    `"attr": "undef"` leaves the entry out of the defined-vector.  Without any `attr` the words are what they always
+    were: 0x10 for `attrdir`/`dir`, 0x20 otherwise, and only if an `attrdir` entry exists."""
+    if not any(e["kind"] == "attrdir" or e.get("attr") is not None for e in entries):
+        return None
+    out = []
+    for e in entries:
+        a = e.get("attr")
+        if a == "undef":
+            out.append(None if e["kind"] != "attrdir" else 0x10)
+        elif a is None:
+            out.append(0x10 if e["kind"] in ("attrdir", "dir") else 0x20)
+        else:
+            a = int(a) & 0xFFFFFFFF
+            if e["kind"] == "attrdir":
+                a |= 0x10          # what makes the entry an `attrdir`
+            elif e["kind"] in ("file", "orphan"):
+                a &= ~0x10 & 0xFFFFFFFF   # a stream-bearing entry stays one (the reader maps streams by position)
+            out.append(a)
+    return out
 
 
 def build(entries, layout: str = "solid", with_crc: bool = True, corrupt: str | None = None) -> bytes:
@@ -115,9 +141,14 @@ def build(entries, layout: str = "solid", with_crc: bool = True, corrupt: str | 
             hdr += _prop(0x0F, bitvector(ef))
     names = b"\x00" + b"".join(e["name"].encode("utf-16-le", "surrogatepass") + b"\x00\x00" for e in entries)
     hdr += _prop(0x11, names)
-    if any(e["kind"] == "attrdir" for e in entries):
+    words = attr_words(entries)
+    if words is not None and all(w is not None for w in words):
         # all-defined byte, External byte (0), then one attribute word per entry
-        body = b"\x01\x00" + b"".join(struct.pack("<I", 0x10 if e["kind"] in ("attrdir", "dir") else 0x20) for e in entries)
+        body = b"\x01\x00" + b"".join(struct.pack("<I", w) for w in words)
+        hdr += _prop(0x15, body)
+    elif words is not None:
+        # attributes defined for some entries only: defined-vector, External byte (0), one word per defined entry
+        body = b"\x00" + bitvector([w is not None for w in words]) + b"\x00" + b"".join(struct.pack("<I", w) for w in words if w is not None)
         hdr += _prop(0x15, body)
     hdr.append(0x00)  # end files info
     hdr.append(0x00)  # end header
